@@ -331,6 +331,7 @@ public:
 
     void compute(int maxit = 10, Scalar tol_div_n = 1e-7)
     {
+        m_info = Eigen::NoConvergence;  // reset: a previous compute() must not leave a stale Success
         Scalar tolerance_L2 = tol_div_n * m_n;
         int BlockSize;
         int max_iter = std::min(m_n, maxit);
